@@ -207,5 +207,5 @@ MANIFEST = {
             "a session is registered, a removed session is no longer dialable and a new one is dialable with the update that registers it. The model replays the table changes observed on the real "
             "multiMuxManager and must predict MultiClientConn's key set; real RPCs (gRPC health service behind every session) check fail-over, unavailability with no session and resumption, including "
             "a remove-then-add race against a slow listener.",
-    "note": "A session whose health ping failed but which is still open stays dialable (events H / HR). Partial by nature: fail-over and resumption are gRPC balancer behaviour - exercised, and modelled as 'an RPC may use any key of the current map', not proved about gRPC.",
+    "note": "A session whose health ping failed but which is still open stays dialable (events H / HR). Partial by nature: fail-over and resumption are gRPC balancer behaviour - exercised, and modelled as 'an RPC may use any key of the current map', not proved about gRPC. A dial parked inside a live session's Open() must not hold up the connection list (TestVerifMccParkedDial, driven through MultiClientConn.UpdateState with a blocking connection function).",
 }
